@@ -152,7 +152,7 @@ func prepareQuery(ctx context.Context, typ Type, selectionSet *SelectionSet, pre
 				if fragment.On != typString {
 					continue
 				}
-				if err := PrepareQuery(ctx, graphqlTyp, fragment.SelectionSet); err != nil {
+				if err := prepareQuery(ctx, graphqlTyp, fragment.SelectionSet, prepared); err != nil {
 					return err
 				}
 			}
